@@ -34,6 +34,7 @@ BUILDS = {
         "features": FEATURES,
         "inject": [
             ("src/context.rs", "verif_context.rs"),
+            ("src/context.rs", "verif_context_unit.rs"),
             ("src/raw.rs", "verif_raw.rs"),
             ("src/lib.rs", "verif_lib.rs"),
             ("src/lib.rs", "verif_attrs.rs"),
@@ -453,6 +454,40 @@ def playback(scratch, h, res):
     return reproduced, rpath, detail
 
 
+def module_file_of(h):
+    """file name of the harness module a query lives in (the path component before the function name)"""
+    parts = h.name.split("::")
+    return (parts[-2] if len(parts) >= 2 else parts[0]) + ".rs"
+
+
+def failing_harness_files(logpath, build):
+    """harness module files named in the compiler's error locations of a failed build"""
+    try:
+        txt = open(logpath, errors="replace").read()
+    except OSError:
+        return []
+    spec = BUILDS[build]
+    names = set(hf for _a, hf in spec.get("inject", []))
+    bad = []
+    # error[E....]: ...\n   --> path/to/file.rs:line:col
+    for m in re.finditer(r"^error(?:\[E\d+\])?:.*?\n\s+--> ([^\s:]+):\d+", txt, re.M):
+        f = os.path.basename(m.group(1))
+        if f in names and f not in bad:
+            bad.append(f)
+    return bad
+
+
+def blank_harness_file(scratch, build, fname):
+    spec = BUILDS[build]
+    cdir = os.path.normpath(os.path.join(scratch.src, spec["dir"]))
+    for anchor, hf in spec["inject"]:
+        if hf == fname:
+            path = os.path.join(cdir, os.path.dirname(anchor), hf)
+            with open(path, "w") as f:
+                f.write("// dropped by the driver: this harness module does not compile against the tree under check\n")
+    scratch.tgt_free[build] = scratch.tgt_free.get(build, [])
+
+
 def mem_available_gb():
     try:
         for l in open("/proc/meminfo"):
@@ -529,13 +564,39 @@ def run_property(prop, harnesses, tier, meta, only=None, workers=None, mem_total
             first.setdefault(h.build, h)
         done = []
         broken = {}
+        dropped = {}   # harness module (file stem) -> reason, per build
         for b, h in first.items():
             hr = job(h)
+            # a harness module that no longer compiles against this tree (a private signature it calls
+            # changed) is dropped and the build retried, so that the other queries still run
+            rounds = 0
+            while hr[1]["status"] == "build_error" and rounds < 4:
+                bad = failing_harness_files(hr[1]["log"], b)
+                bad = [f for f in bad if f not in dropped.get(b, {})]
+                if not bad:
+                    break
+                for f in bad:
+                    blank_harness_file(scratch, b, f)
+                    dropped.setdefault(b, {})[f] = hr[1].get("detail", "")
+                # a first harness that lives in a dropped module cannot be the probe any more
+                cand = [x for x in hs if x.build == b and module_file_of(x) not in dropped[b]]
+                if not cand:
+                    break
+                h = cand[0]
+                first[b] = h
+                hr = job(h)
+                rounds += 1
             done.append(hr)
             if hr[1]["status"] == "build_error":
                 broken[b] = hr[1]
             elif scratch.template(b) is None:
                 scratch.make_template(b)
+        for h in hs:
+            if h.build in dropped and module_file_of(h) in dropped[h.build] and h not in [x[0] for x in done]:
+                r = {"harness": h.name, "wall_s": 0, "log": "", "status": "build_error", "checks_total": 0, "checks_failed": 0,
+                     "failed_descriptions": [], "covers_total": 0, "covers_satisfied": 0, "solver_s": None, "stubs_applied": [],
+                     "detail": "harness module %s does not compile against this tree (%s): dropped, the other queries were run" % (module_file_of(h), dropped[h.build][module_file_of(h)][:200])}
+                done.append((h, r))
         for h in hs:
             if h.build in broken and h is not first[h.build]:
                 r = dict(broken[h.build])
